@@ -33,6 +33,26 @@ CHECKS = {
                      "ASan/UBSan stayed silent, with callbacks starting requests and cancelling, hostile servers, socket "
                      "faults and seeded reordering of replies vs. timers. Exploration: histories not generated are not covered.",
                 note="Trusts the simulator's socket/server model and gcc ASan/UBSan; single-threaded (threads: C11)."),
+    "C03": dict(engine="codec", category="exploration", design_ref="DESIGN.md §4 C03",
+                technique="runtime monitoring: write->parse->write round trip on generated and parser-accepted records with an "
+                          "independent RFC decoder (refdns) as second reader, TCP-buffer placements, duplicate and legacy builders, "
+                          "under ASan+UBSan",
+                text="Held on the records explored (hundreds of thousands quick, millions thorough; every RR type, escapes, shared "
+                     "suffixes, sizes through 16 KiB and towards 64 KiB): a successful write was <= 65535 octets, parsed back to a "
+                     "field-by-field equal record, re-serialised to the same bytes, decoded identically by the independent "
+                     "reference decoder with strictly backward pointers; the same through ares_dns_write_buf_tcp into buffers "
+                     "already holding other frames or a consumed prefix, through ares_dns_record_duplicate and for "
+                     "ares_create_query/ares_mkquery.",
+                note="Trusts harness/refdns (written from the RFCs, shares no code with c-ares) and the public getters."),
+    "C04": dict(engine="codec", category="exploration", design_ref="DESIGN.md §4 C04",
+                technique="runtime monitoring: differential decoding of generated/mutated messages by c-ares (public getters) "
+                          "and an independent RFC reference decoder, both directions, plus name-escaping round trips",
+                text="Held on the ~1M generated and mutated messages per quick run: whenever both decoders accepted, every header, "
+                     "question and RR field (incl. OPT class/TTL overloading, 12-bit rcode, option/SvcParam TLVs, raw RRs) was "
+                     "equal; every reference-well-formed message inside the supported subset was accepted; nothing structurally "
+                     "malformed (forward/self pointers, overruns, reserved labels) was accepted; label bytes survived "
+                     "wire->text->wire escaping.",
+                note="Supported-subset and leniency rules are listed with source references in harness/codec/cdiff.h."),
     "C05": dict(engine="simnet", category="exploration", design_ref="DESIGN.md §4 C05",
                 technique="runtime monitoring in a deterministic simulator: provenance serial in every packet, adversary "
                           "injecting single-attribute forgeries and stale replies, classification at creation and at the moment "
@@ -60,6 +80,17 @@ CHECKS = {
                      "after every processing call no live query kept a passed deadline. Event-thread half (no application "
                      "action needed) is decided by the threaded stress engine when present in this tree.",
                 note="Deadlines are read from live queries via ares_private.h; virtual clock."),
+    "C09": dict(engine="simnet", category="exploration", design_ref="DESIGN.md §4 C09",
+                technique="runtime monitoring in a deterministic simulator: destination of every transmission checked against "
+                          "consecutive-failure counts derived from the public server-state callback stream; probe rules; stream "
+                          "anchored to the simulator's ground truth",
+                text="Held on the seeded failover histories explored (1-5 servers changing behaviour over time, rotate on/off, "
+                     "failover options, list edits): every transmission went to a server with the fewest announced consecutive "
+                     "failures (first in configuration order without rotation) or was the same-server EDNS-downgrade resend or a "
+                     "well-formed probe (copy of a first attempt, after the retry delay, never with chance 0, never two "
+                     "pending); retried timeouts/error rcodes had a failure notification, delivered answers a success "
+                     "notification from their server, and no success followed anything but a good response.",
+                note="Counts come from the library's own notifications; fairness of random rotation is not judged."),
     "C10": dict(engine="simnet", category="fault_enumeration", design_ref="DESIGN.md §4 C10",
                 technique="runtime monitoring: descriptor-protocol automaton over the virtual socket layer's call log, the "
                           "socket-state callback stream and ares_fds/ares_getsock, with k-th-call fault enumeration",
@@ -88,6 +119,16 @@ CHECKS = {
                      "produced no question.",
                 note="A and AAAA of one candidate get the same outcome class; candidates that do not fit on the wire end the "
                      "comparison (status unspecified by the statement)."),
+    "C13": dict(engine="simnet", category="exploration", design_ref="DESIGN.md §4 C13",
+                technique="runtime monitoring in a deterministic simulator: every address encodes (record index, packet serial); "
+                          "multiset comparison of the returned addresses with the class-IN A/AAAA records of the answers read",
+                text="Held on the seeded address lookups explored (getaddrinfo/gethostbyname/gethostbyaddr/getnameinfo x family x "
+                     "hints x sortlist x lookup order x answers with 0-200 records, CNAME chains, other-family, foreign-class and "
+                     "duplicate records): returned addresses = records of the accepted answers restricted to the family, with "
+                     "record TTL and requested port, sortlist ranks monotone and stable; hosts-file, literal and loopback names "
+                     "returned exactly their own addresses without network traffic; reverse lookups asked exactly the "
+                     "reverse-map name and returned PTR targets of the answer.",
+                note="Owner names of address records follow the CNAME chain (c-ares deliberately does not check owners)."),
     "C15": dict(engine="cfg", category="exploration", design_ref="DESIGN.md §4 C15",
                 technique="runtime monitoring: generated/junk configuration text through the real init/reinit path with "
                           "link-time redirected files+environment, effective-configuration read-back, range oracle, metamorphic "
